@@ -7,6 +7,7 @@ import (
 	"encoding/json"
 	"fmt"
 	"hash/fnv"
+	"math"
 	"reflect"
 	"regexp"
 	"sort"
@@ -450,6 +451,25 @@ func mapState(v reflect.Value) string {
 }
 
 // Canon renders a value canonically (maps sorted, pointers dereferenced, no addresses).
+// FloatRepr renders a float BIT FOR BIT: what %v prints for every value that %v tells apart (it prints -0 as "-0", the
+// infinities as "+Inf" / "-Inf"), and the bit pattern beside "NaN" — a NaN is not equal to itself under == and %v prints every
+// payload and sign the same, so identity ("the same bits") has to be read off the bits (C15: sameValue, the input graph
+// "bit-for-bit unchanged").
+func FloatRepr(f float64) string {
+	if f != f {
+		return fmt.Sprintf("NaN#%x", math.Float64bits(f))
+	}
+	return fmt.Sprintf("%v", f)
+}
+
+// ComplexRepr: %v, and both parts bit for bit when one of them is a NaN.
+func ComplexRepr(c complex128) string {
+	if real(c) != real(c) || imag(c) != imag(c) {
+		return "(" + FloatRepr(real(c)) + "," + FloatRepr(imag(c)) + "i)"
+	}
+	return fmt.Sprintf("%v", c)
+}
+
 func Canon(v any) string {
 	var b strings.Builder
 	canon(&b, reflect.ValueOf(v), 0)
@@ -524,9 +544,9 @@ func canon(b *strings.Builder, v reflect.Value, d int) {
 	case reflect.Uint, reflect.Uint8, reflect.Uint16, reflect.Uint32, reflect.Uint64, reflect.Uintptr:
 		fmt.Fprintf(b, "%d", v.Uint())
 	case reflect.Float32, reflect.Float64:
-		fmt.Fprintf(b, "%v", v.Float())
+		b.WriteString(FloatRepr(v.Float()))
 	case reflect.Complex64, reflect.Complex128:
-		fmt.Fprintf(b, "%v", v.Complex())
+		b.WriteString(ComplexRepr(v.Complex()))
 	default:
 		b.WriteString("?")
 	}
@@ -695,9 +715,9 @@ func deep(h hasher, v reflect.Value, seen map[uintptr]bool, d int) {
 	case reflect.Uint, reflect.Uint8, reflect.Uint16, reflect.Uint32, reflect.Uint64, reflect.Uintptr:
 		w("%d;", v.Uint())
 	case reflect.Float32, reflect.Float64:
-		w("%v;", v.Float())
+		w("%s;", FloatRepr(v.Float()))
 	case reflect.Complex64, reflect.Complex128:
-		w("%v;", v.Complex())
+		w("%s;", ComplexRepr(v.Complex()))
 	}
 }
 
